@@ -87,7 +87,7 @@ theorem c04_progress_renews_budget (c : SCfg) (hb : 0 < c.b) (hw : c.w < 65536) 
     ⟨h.base_pos, h.bn_eq, h.elems_eq, h.cur, h.fin, h.len_le, h.size_eq, h.chunk_eq, h.can_read,
       h.filled_eq, h.retry_lt⟩
   have hs' := slide_inv h0 n hin hw
-  obtain ⟨w', fl, hfill, _, _⟩ := fill_ok hb hw hs'
+  obtain ⟨w', fl, hfill, _, _, _, _⟩ := fill_ok hb hw hs'
   unfold sStep
   simp only [hrun, hlen, hin, ↓reduceIte]
   split
